@@ -17,12 +17,11 @@ RULE = ("OPF problems on 2-5 bus meshed 20 kV nets with tight voltage bands and 
         "column (30 % fixed) and scaling in {1, 0.5}, controllable/fixed sgens, loads, storages, 0-2 dclines with loss_percent "
         "in {0,2,5} and loss_mw in {0,1/16}, 15 % of the elements out of service, missing limit columns (NaN) on ext_grids; "
         "non-trivial = at least two OPF variables besides the ext_grid or a dcline or a fixed generator")
-ASSUMPTIONS = ["PIPS is an oracle: only runs reporting success are judged; result tolerances: 1e-4 MW/Mvar, 1e-5 p.u., 0.01 % loading",
+ASSUMPTIONS = ["PIPS is an oracle: only runs reporting success are judged; result tolerances: 1e-4 MW/Mvar, 1e-5 p.u., 0.01 % loading; its feasibility test is relative to the size of the slack variables, so the reproduction run is compared with 3e-3 MW (1e-2 MW when a limit column is missing and the 1e9 default limits enter the slacks)",
                "power flow (runpp / rundcpp) convergence is an oracle for the reproduction run",
                "sqrt(3) enters the line rating as a positive number s3 (cancels in the theorem); the harness passes numpy's value"]
-TRUSTED = ["white-box capture by swapping the module attribute pandapower.optimal_powerflow.opf in the harness process",
-           "python re-implementation of the guards G16gen/G16dc (harness/props/c16.py)"]
-KINDS = ["C16-dcline-loss-percent-law", "C16-fixed-gen-ignores-scaling"]
+TRUSTED = ["white-box capture by swapping the module attribute pandapower.optimal_powerflow.opf in the harness process"]
+KINDS = []   # both recorded defects are repaired in /repo; their witnesses stay in corpus/C16 and must pass
 KIND_COQ = {"gen": "KGen", "ext_grid": "KExt", "sgen": "KSgen", "load": "KLoad", "storage": "KStorage"}
 TOLP, TOLV, TOLL = 1e-4, 1e-5, 1e-2
 
@@ -124,11 +123,13 @@ def correspondence(ctx, net, ac, desc, terms, pend):
             A, l, u = cap["dc_rows"]
             gl = cap["lookups"]["gen"]
             impl_r = []
+            ins_pos = [j for j, r in enumerate(net.dcline.itertuples()) if bool(r.in_service)]
             for k in range(A.shape[0]):
-                to_lab, fr_lab = aux.index[2 * k], aux.index[2 * k + 1]
+                j = ins_pos[k] if k < len(ins_pos) else 0
+                to_lab, fr_lab = aux.index[2 * j], aux.index[2 * j + 1]
                 row = A[k]
-                others = [j for j in range(len(row)) if row[j] != 0 and j not in (int(gl[to_lab]), int(gl[fr_lab]))]
-                if others or l[k] != u[k]:
+                others = [c for c in range(len(row)) if row[c] != 0 and c not in (int(gl[to_lab]), int(gl[fr_lab]))]
+                if others or l[k] != u[k] or k >= len(ins_pos):
                     impl_r.append(["unexpected", others])
                 else:
                     impl_r.append([fr(row[int(gl[to_lab])]), fr(row[int(gl[fr_lab])]), fr(l[k])])
@@ -177,14 +178,7 @@ def run_opf(net, ac):
 
 
 def guards(net):
-    Fg = []
-    if any(bool(r.in_service) and r.loss_percent != 0 for r in net.dcline.itertuples()):
-        Fg.append(KINDS[0])
-    if "controllable" in net.gen.columns:
-        for r in net.gen.itertuples():
-            if bool(r.in_service) and not bool(r.controllable) and r.scaling != 1 and r.p_mw != 0:
-                Fg.append(KINDS[1])
-    return [k for k in KINDS if k in Fg]
+    return []
 
 
 def check_constraints(ctx, net, ac, desc):
@@ -218,10 +212,7 @@ def check_constraints(ctx, net, ac, desc):
                 sc = float(tab.scaling.at[i]) if "scaling" in tab.columns else 1.0
                 sp = float(tab.p_mw.at[i]) * sc
                 if abs(p - sp) > TOLP:
-                    kind = "spec"
-                    if et == "gen" and sc != 1 and abs(p - float(tab.p_mw.at[i])) <= TOLP:
-                        kind = KINDS[1]     # exactly what the model predicts: pinned to the unscaled p_mw
-                    bad.append((kind, "fixed %s %d: p=%.6f, setpoint p_mw*scaling=%.6f" % (et, i, p, sp)))
+                    bad.append(("spec", "fixed %s %d: p=%.6f, setpoint p_mw*scaling=%.6f" % (et, i, p, sp)))
                 if et != "gen" and ac and abs(qv - float(tab.q_mvar.at[i]) * sc) > TOLP:
                     bad.append(("spec", "fixed %s %d: q=%.6f, setpoint %.6f" % (et, i, qv, float(tab.q_mvar.at[i]) * sc)))
                 if et == "gen" and ac and abs(float(res.vm_pu.at[i]) - float(tab.vm_pu.at[i])) > TOLV:
@@ -249,18 +240,13 @@ def check_constraints(ctx, net, ac, desc):
             if abs(float(rd.q_from_mvar)) > max(abs(r.min_q_from_mvar), abs(r.max_q_from_mvar)) + TOLP or \
                abs(float(rd.q_to_mvar)) > max(abs(r.min_q_to_mvar), abs(r.max_q_to_mvar)) + TOLP:
                 bad.append(("spec", "dcline %d reactive power outside its limits" % r.Index))
-        # the OPF's own transfer law (what the model says the OPF enforces)
-        lhs = (1 + r.loss_percent / 100) * (-float(rd.p_to_mw)) + (-pf)
-        opf_law = abs(lhs + r.loss_mw) <= 3e-4
-        if not opf_law:
-            bad.append(("spec", "dcline %d: result violates the OPF constraint row (residual %.2e)" % (r.Index, lhs + r.loss_mw)))
-        # valid power-flow operating point of the dcline: p_to = -(p_from (1 - loss%) - loss_mw)   (auxiliary.py _add_dcline_gens)
-        if r.p_mw > 0:
-            pf_law = -(pf * (1 - r.loss_percent / 100) - r.loss_mw)
-            if abs(float(rd.p_to_mw) - pf_law) > 3e-4:
-                kind = KINDS[0] if (r.loss_percent != 0 and opf_law) else "spec"
-                bad.append((kind, "dcline %d: OPF result p_to=%.6f but the power-flow model of the dcline gives %.6f for p_from=%.6f" % (
-                    r.Index, float(rd.p_to_mw), pf_law, pf)))
+        # the dcline's transfer law, the same in the OPF constraint row and in the power-flow model (_add_dcline_gens):
+        # the receiving end gets p*(1 - loss%) - loss_mw of the power p drawn at the sending end (direction = sign of p_mw)
+        pt = float(rd.p_to_mw)
+        k = 1 - r.loss_percent / 100
+        law = (-pt) - (pf * k - r.loss_mw) if r.p_mw > 0 else (-pf) - (pt * k - r.loss_mw)
+        if abs(law) > 3e-4:
+            bad.append(("spec", "dcline %d: p_from=%.6f p_to=%.6f violate the transfer law of the dcline (residual %.2e)" % (r.Index, pf, pt, law)))
     for kind, what in bad:
         ctx.violation(kind, what, desc)
     return bad
@@ -288,7 +274,9 @@ def reproduce(ctx, net, ac, desc, Fg):
             n2.ext_grid.at[i, "va_degree"] = float(net.res_bus.va_degree.at[n2.ext_grid.bus.at[i]])
     for i in n2.dcline.index:
         if bool(n2.dcline.in_service.at[i]):
-            n2.dcline.at[i, "p_mw"] = float(net.res_dcline.p_from_mw.at[i])
+            # p_mw is the power at the sending end: the from bus for p_mw > 0, the to bus otherwise
+            n2.dcline.at[i, "p_mw"] = float(net.res_dcline.p_from_mw.at[i]) if float(net.dcline.p_mw.at[i]) > 0 else \
+                -float(net.res_dcline.p_to_mw.at[i])
             if ac:
                 n2.dcline.at[i, "vm_from_pu"] = float(net.res_dcline.vm_from_pu.at[i])
                 n2.dcline.at[i, "vm_to_pu"] = float(net.res_dcline.vm_to_pu.at[i])
@@ -311,11 +299,17 @@ def reproduce(ctx, net, ac, desc, Fg):
     # network state and branch flows (the split of reactive power between several voltage-controlling elements at one
     # bus is not unique, so element-level q is not compared).  PIPS' feasibility test is relative to the size of the
     # slack variables (line ratings squared), which leaves power mismatches of up to ~1e-3 MW in a converged result.
-    cmp_ = [("res_bus", "va_degree", 3e-3), ("res_line", "p_from_mw", 3e-3), ("res_line", "p_to_mw", 3e-3), ("res_ext_grid", "p_mw", 3e-3)]
+    # (with missing limit columns the default limits of 1e9 make the slack variables huge and the relative test even
+    # weaker: observed 4e-3 MW at the slack bus; the tolerance is 1e-2 MW then)
+    lim_cols = [net[t][c] for t in ("ext_grid", "gen", "sgen", "load", "storage") for c in ("min_p_mw", "max_p_mw", "min_q_mvar", "max_q_mvar")
+                if c in net[t].columns and len(net[t])]
+    loose = any(bool(col.isnull().any()) for col in lim_cols)
+    tp = 1e-2 if loose else 3e-3
+    cmp_ = [("res_bus", "va_degree", 3e-3), ("res_line", "p_from_mw", tp), ("res_line", "p_to_mw", tp), ("res_ext_grid", "p_mw", tp)]
     if ac:
-        cmp_ += [("res_bus", "vm_pu", 1e-4), ("res_line", "q_from_mvar", 3e-3)]
+        cmp_ += [("res_bus", "vm_pu", 1e-4), ("res_line", "q_from_mvar", tp)]
     if len(net.dcline):
-        cmp_ += [("res_dcline", "p_to_mw", 3e-3)]
+        cmp_ += [("res_dcline", "p_to_mw", tp)]
     for tab, col, tol in cmp_:
         if len(net[tab]) == 0:
             continue
@@ -330,23 +324,6 @@ def reproduce(ctx, net, ac, desc, Fg):
                 worst, what = d, "%s.%s differs by %.3g" % (tab, col, d * tol)
     if worst > 1.0:
         kind = "spec"
-        if Fg and Fg[0] == KINDS[0]:
-            # the recorded defect: the dcline's receiving-end power follows 1/(1+l) in the OPF and (1-l) in the power flow;
-            # classified only if every in-service lossless dcline reproduces and each lossy one deviates by the model's amount
-            ok = True
-            for r in net.dcline.itertuples():
-                if not bool(r.in_service):
-                    continue
-                pf = float(net.res_dcline.p_from_mw.at[r.Index])
-                if pf > 0:
-                    pred_opf = -(pf - r.loss_mw) / (1 + r.loss_percent / 100)
-                    pred_pf = -(pf * (1 - r.loss_percent / 100) - r.loss_mw)
-                    ok &= abs(float(net.res_dcline.p_to_mw.at[r.Index]) - pred_opf) <= 5e-4
-                    ok &= abs(float(n2.res_dcline.p_to_mw.at[r.Index]) - pred_pf) <= 5e-4
-            if ok:
-                kind = KINDS[0]
-        elif Fg and Fg[0] == KINDS[1]:
-            kind = "spec"   # the reproduction uses res/scaling, so a fixed gen's scaling cannot explain a mismatch
         ctx.violation(kind, "power flow with the OPF dispatch as setpoints does not reproduce the OPF result: " + what, desc)
         ctx.count("reproduction_mismatch:" + kind)
     else:
